@@ -55,8 +55,8 @@ var canaries = map[string][]canary{}
 // after the property's own analysis.
 var propertyCanaries = map[string][]string{
 	"C01": {"STRIDE.flatfill", "ALPHA.noread", "STRIDE.fullrange", "STRIDE.unitidx", "FLAG.unitdiag", "BETA.noread", "BETA.quickret", "BETA.scaleguard", "FLAG.neginc", "STRIDE.index", "STRIDE.len", "STRIDE.start", "STRIDE.rowoffset", "STRIDE.extent", "FLAG.trans", "TWIN.generated", "ASM.units", "ASM.lost"},
-	"C02": {"FLAG.cholorder", "ARGS.callee", "FLAG.unset", "FLAG.unitdiag", "WORKSIZE.fallback", "OKFLOW.loopstatus", "FACTKIND.pair", "ARGS.order", "ARGS.lencheck", "ARGS.query", "LOOPIDX.unused", "OKFLOW.report", "STRIDE.vecinc", "WORKSIZE.min", "WORKSIZE.querylen"},
-	"C03": {"FLAG.cholorder", "ARGS.callee", "FLAG.unset", "FLAG.unitdiag", "WORKSIZE.fallback", "GUARD.operand", "FLAG.uplomap", "STRIDE.veclda", "FACTKIND.pair", "LOOPIDX.origin", "ARGS.order", "ARGS.lencheck", "ARGS.query", "LOOPIDX.unused", "OKFLOW.report", "STRIDE.workld", "STRIDE.worknext", "WORKSIZE.min"},
+	"C02": {"WORK.init", "FLAG.cholorder", "ARGS.callee", "FLAG.unset", "FLAG.unitdiag", "WORKSIZE.fallback", "OKFLOW.loopstatus", "FACTKIND.pair", "ARGS.order", "ARGS.lencheck", "ARGS.query", "LOOPIDX.unused", "OKFLOW.report", "STRIDE.vecinc", "WORKSIZE.min", "WORKSIZE.querylen"},
+	"C03": {"WORK.init", "FLAG.cholorder", "ARGS.callee", "FLAG.unset", "FLAG.unitdiag", "WORKSIZE.fallback", "GUARD.operand", "FLAG.uplomap", "STRIDE.veclda", "FACTKIND.pair", "LOOPIDX.origin", "ARGS.order", "ARGS.lencheck", "ARGS.query", "LOOPIDX.unused", "OKFLOW.report", "STRIDE.workld", "STRIDE.worknext", "WORKSIZE.min"},
 	"C04": {"MAT.selfguard", "ZEROED.paths", "SWAP.cond", "STRIDE.contig", "TWIN.bounds", "NILRECV"},
 	"C05": {"OVERLAP.extent", "OVERLAP.guard", "MODSET.mat", "OVERLAP.symmetric", "TWIN.shadow"},
 	"C06": {"FACT.deadloop", "FACT.reuse", "FLAG.unset", "OKFLOW.condpath", "FACT.condafter", "FACTKIND.pair", "OKFLOW.use", "OKFLOW.cond", "OKFLOW.report", "FACT.normorder", "FACT.state", "FACT.condunit", "NILRECV"},
@@ -116,6 +116,7 @@ func init() {
 		{"ALPHA.noread", "blas/gonum/dgemm.go", "\tif alpha == 0 {\n\t\t// A and B are not referenced.\n\t\treturn\n\t}\n", "", func() *core.Result { return flagx.RunAlphaZero(def, core.Pkgs("./blas/gonum")) }},
 		{"STRIDE.fullrange", "internal/asm/f32/gemv.go", "for i := range y[:n] {", "for i := range y {", func() *core.Result { return stride.Run(def, core.Pkgs("./internal/asm/f32")) }},
 		{"STRIDE.flatfill", "blas/gonum/level3float64.go", "\tif alpha == 0 {\n\t\tfor i := 0; i < m; i++ {\n\t\t\tbtmp := b[i*ldb : i*ldb+n]\n\t\t\tfor j := range btmp {\n\t\t\t\tbtmp[j] = 0\n\t\t\t}\n\t\t}\n\t\treturn\n\t}\n\n\tnonUnit := d == blas.NonUnit", "\tif alpha == 0 {\n\t\tfor i := range b[:ldb*(m-1)+n] {\n\t\t\tb[i] = 0\n\t\t}\n\t\treturn\n\t}\n\n\tnonUnit := d == blas.NonUnit", func() *core.Result { return stride.Run(def, core.Pkgs("./blas/gonum")) }},
+		{"WORK.init", "lapack/gonum/dlange.go", "\t\tfor i := 0; i < n; i++ {\n\t\t\twork[i] = 0\n\t\t}\n\t\tfor i := 0; i < m; i++ {", "\t\tfor i := 0; i < m; i++ {", func() *core.Result { return flagx.RunWorkInit(def, core.Pkgs("./lapack/gonum")) }},
 		{"BETA.noread", "blas/gonum/level3float64.go", "\tif beta == 0 {\n\t\tfor i := 0; i < m; i++ {\n\t\t\tctmp := c[i*ldc : i*ldc+n]\n\t\t\tfor j := range ctmp {\n\t\t\t\tctmp[j] = 0", "\tif beta == 0 {\n\t\tfor i := 0; i < m; i++ {\n\t\t\tctmp := c[i*ldc : i*ldc+n]\n\t\t\tfor j := range ctmp {\n\t\t\t\tctmp[j] *= beta", func() *core.Result { return flagx.RunBetaZero(def, core.Pkgs("./blas/gonum")) }},
 		{"GUARD.operand", "lapack/gonum/dbdsqr.go", "if ncc > 0 {\n\t\t\t\timpl.Dlasr(blas.Left, lapack.Variable, lapack.Forward, n, ncc, work, work[n-1:], c, ldc)", "if nru > 0 {\n\t\t\t\timpl.Dlasr(blas.Left, lapack.Variable, lapack.Forward, n, ncc, work, work[n-1:], c, ldc)", func() *core.Result { return flagx.RunGuardOperand(def, core.Pkgs("./lapack/gonum")) }},
 		{"GOPROTO.scratch", "optimize/minimize.go", "\tworker := func() {\n\t\tx := make([]float64, dim)\n", "\tx := make([]float64, dim)\n\tworker := func() {\n", func() *core.Result { return goproto.Run(def, core.Pkgs("./optimize")) }},
